@@ -30,6 +30,10 @@ def role_atoms(list_role, suffix):
         return TupleV([PointV.atom("x" + suffix), PointV.atom("g" + suffix), ExprV.atom("f" + suffix)])
     if list_role == "T.points":
         return TupleV([PointV.atom("u" + suffix), PointV.atom("v" + suffix), ExprV.atom("h" + suffix)])
+    if "+" in list_role:
+        # a sample of a mixture of lists: atoms of its own (they match the atoms of no reference condition)
+        tag = "".join(ch for ch in list_role if ch.isalnum())
+        return TupleV([PointV.atom("m_%s_x%s" % (tag, suffix)), PointV.atom("m_%s_g%s" % (tag, suffix)), ExprV.atom("m_%s_f%s" % (tag, suffix))])
     raise AnalysisError("unknown sample list role %s" % list_role)
 
 
@@ -42,6 +46,11 @@ def list_role_of(node):
         return "stationary"
     if d == "self.T.list_of_points":
         return "T.points"
+    if isinstance(node, ast.BinOp) and isinstance(node.op, ast.Add):
+        # a concatenation of sample lists is a sample list of its own kind (no reference condition ranges over a mixture)
+        a, b = list_role_of(node.left), list_role_of(node.right)
+        if a is not None and b is not None:
+            return "%s+%s" % (a, b)
     return None
 
 
@@ -564,7 +573,7 @@ def asub(node, ctx):
 def _aliasable(v):
     """Right-hand sides that can be re-read at the use site: attribute chains, names, constants, comparisons / boolean combinations of those."""
     for n in ast.walk(v):
-        if not isinstance(n, (ast.Name, ast.Attribute, ast.Constant, ast.Compare, ast.BoolOp, ast.UnaryOp, ast.Load, ast.And, ast.Or, ast.Not,
+        if not isinstance(n, (ast.Name, ast.Attribute, ast.Constant, ast.Compare, ast.BoolOp, ast.UnaryOp, ast.Load, ast.And, ast.Or, ast.Not, ast.BinOp, ast.Add,
                               ast.Eq, ast.NotEq, ast.Is, ast.IsNot, ast.Lt, ast.LtE, ast.Gt, ast.GtE, ast.In, ast.NotIn, ast.USub)):
             return False
     return True
